@@ -29,6 +29,7 @@ import (
 	"google.golang.org/grpc/codes"
 	"google.golang.org/grpc/credentials/insecure"
 	"google.golang.org/grpc/metadata"
+	"google.golang.org/grpc/peer"
 	"google.golang.org/grpc/status"
 	"google.golang.org/grpc/test/bufconn"
 	"google.golang.org/protobuf/types/known/wrapperspb"
@@ -120,6 +121,19 @@ func (s *svc) bidi(ss grpc.ServerStream) error {
 					return err
 				}
 			}
+		case len(in.Value) > 0 && in.Value[0] == 'P':
+			// pipelined: responses are sent from a second goroutine while this one keeps
+			// receiving (one sender plus one receiver on a stream is allowed)
+			done := make(chan struct{})
+			go func() {
+				defer close(done)
+				for i := 0; i < 4; i++ {
+					if ss.SendMsg(&wrapperspb.BytesValue{Value: []byte{byte(i)}}) != nil {
+						return
+					}
+				}
+			}()
+			defer func() { <-done }()
 		case len(in.Value) > 0 && in.Value[0] == 'R':
 			return status.Error(codes.Aborted, "scripted")
 		default:
@@ -245,13 +259,15 @@ func unaryCall(e *env, r *rand.Rand, payload string) {
 	defer cancel()
 	var hdr, tlr metadata.MD
 	var ch grpctunnel.TunnelChannel
+	var pr peer.Peer
 	resp := &wrapperspb.BytesValue{}
 	err := e.conn.Invoke(ctx, "/race.T/Unary", &wrapperspb.BytesValue{Value: []byte(payload)}, resp,
-		grpc.Header(&hdr), grpc.Trailer(&tlr), grpctunnel.WithTunnelChannel(&ch))
+		grpc.Header(&hdr), grpc.Trailer(&tlr), grpctunnel.WithTunnelChannel(&ch), grpc.Peer(&pr))
 	// the targets may be read as soon as Invoke has returned
 	_ = len(hdr["h"])
 	_ = len(tlr["t"])
 	_ = ch
+	_ = pr.Addr
 	_ = err
 }
 
@@ -261,10 +277,14 @@ func splitBidi(e *env, r *rand.Rand, payloads []string, cancelAfter time.Duratio
 	ctx, cancel := context.WithTimeout(context.Background(), 10*time.Second)
 	defer cancel()
 	var hdr, tlr metadata.MD
-	cs, err := e.conn.NewStream(ctx, bidiDesc, "/race.T/Bidi", grpc.Header(&hdr), grpc.Trailer(&tlr))
+	var pr peer.Peer
+	var tch grpctunnel.TunnelChannel
+	cs, err := e.conn.NewStream(ctx, bidiDesc, "/race.T/Bidi", grpc.Header(&hdr), grpc.Trailer(&tlr), grpc.Peer(&pr), grpctunnel.WithTunnelChannel(&tch))
 	if err != nil {
 		return
 	}
+	_ = pr.Addr
+	_ = tch
 	if md, ok := grpctunnel.TunnelMetadataFromOutgoingContext(cs.Context()); ok {
 		md.Set("mutated", "caller")
 	}
@@ -314,7 +334,7 @@ func programs() []program {
 	both := []bool{false, true}
 	return []program{
 		{name: "send||recv||header", reverse: both, noFC: both, run: func(e *env, r *rand.Rand) {
-			splitBidi(e, r, []string{"a", "b", "c"}, 0)
+			splitBidi(e, r, []string{"a", "P", "c"}, 0)
 		}},
 		{name: "many-rpcs", reverse: both, noFC: both, run: func(e *env, r *rand.Rand) {
 			var wg sync.WaitGroup
@@ -333,7 +353,7 @@ func programs() []program {
 			wg.Wait()
 		}},
 		{name: "rpc||cancel", reverse: both, noFC: both, run: func(e *env, r *rand.Rand) {
-			splitBidi(e, r, []string{"a", "M", "b", "M"}, 2*time.Millisecond)
+			splitBidi(e, r, []string{"a", "P", "b", "M"}, 2*time.Millisecond)
 			unaryCall(e, r, "ok")
 		}},
 		{name: "blocked-handler-send||cancel||rpc", reverse: both, noFC: []bool{false}, run: func(e *env, r *rand.Rand) {
